@@ -46,6 +46,10 @@ theorem C07_flags_track_iterators {s : St} {a : Sp} (r : Reach s a) :
     s.flagP = s.p.live ∧ s.flagW = s.w.live ∧ s.flagC = s.c.live :=
   ⟨(C07_life_cycle r).flagP, (C07_life_cycle r).flagW, (C07_life_cycle r).flagC⟩
 
+/-- What an accessor touches and how, without the ordering (orderings are required to be *at least* what the proofs
+use: a stronger ordering in the source is as good). -/
+def shape (a : Acc) : Loc × AccKind × Bool := (a.loc, a.kind, a.guarded)
+
 /-- Tie to the source: an iterator's drop clears its own flag, then decrements the counter of live iterators with one
     read-modify-write (AcqRel on the concurrent buffer) and frees exactly if it saw the last one; flags are stored with
     Release and loaded with Acquire, so a thread that sees a peer dead also sees what the peer published before. -/
@@ -53,14 +57,17 @@ theorem C07_source_drop_protocol :
     Gen.skelDropProd.map (·.name) = [.setProdAlive, .releaseIter, .drop] ∧
     Gen.skelDropWork.map (·.name) = [.setWorkAlive, .releaseIter, .drop] ∧
     Gen.skelDropCons.map (·.name) = [.setConsAlive, .releaseIter, .drop] ∧
-    Gen.concAcc.releaseIter = [⟨.aliveIters, .fetchSub, .acqRel, false⟩] ∧ Gen.concAcc.releaseIterResult = .oldEq 1 ∧
+    Gen.concAcc.releaseIter.map shape = [(.aliveIters, .fetchSub, false)] ∧ (∀ a ∈ Gen.concAcc.releaseIter, isAcq a.ord = true ∧ isRel a.ord = true) ∧
+    Gen.concAcc.releaseIterResult = .oldEq 1 ∧
     Gen.localAcc.releaseIter = [⟨.aliveIters, .subAssign, .plain, false⟩, ⟨.aliveIters, .read, .plain, false⟩] ∧ Gen.localAcc.releaseIterResult = .newEq 0 ∧
-    Gen.concAcc.setProdAlive = [⟨.aliveIters, .fetchAdd, .relaxed, true⟩, ⟨.prodAlive, .store, .release, false⟩] ∧
-    Gen.concAcc.setWorkAlive = [⟨.aliveIters, .fetchAdd, .relaxed, true⟩, ⟨.workAlive, .store, .release, false⟩] ∧
-    Gen.concAcc.setConsAlive = [⟨.aliveIters, .fetchAdd, .relaxed, true⟩, ⟨.consAlive, .store, .release, false⟩] ∧
-    Gen.concAcc.prodAlive = [⟨.prodAlive, .load, .acquire, false⟩] ∧ Gen.concAcc.workAlive = [⟨.workAlive, .load, .acquire, false⟩] ∧
-    Gen.concAcc.consAlive = [⟨.consAlive, .load, .acquire, false⟩] :=
-  ⟨rfl, rfl, rfl, rfl, rfl, rfl, rfl, rfl, rfl, rfl, rfl, rfl, rfl⟩
+    Gen.concAcc.setProdAlive.map shape = [(.aliveIters, .fetchAdd, true), (.prodAlive, .store, false)] ∧
+    Gen.concAcc.setWorkAlive.map shape = [(.aliveIters, .fetchAdd, true), (.workAlive, .store, false)] ∧
+    Gen.concAcc.setConsAlive.map shape = [(.aliveIters, .fetchAdd, true), (.consAlive, .store, false)] ∧
+    (∀ a ∈ Gen.concAcc.setProdAlive ++ Gen.concAcc.setWorkAlive ++ Gen.concAcc.setConsAlive, a.kind = .store → isRel a.ord = true) ∧
+    Gen.concAcc.prodAlive.map shape = [(.prodAlive, .load, false)] ∧ Gen.concAcc.workAlive.map shape = [(.workAlive, .load, false)] ∧
+    Gen.concAcc.consAlive.map shape = [(.consAlive, .load, false)] ∧
+    (∀ a ∈ Gen.concAcc.prodAlive ++ Gen.concAcc.workAlive ++ Gen.concAcc.consAlive, isAcq a.ord = true) :=
+  ⟨rfl, rfl, rfl, rfl, by decide, rfl, rfl, rfl, rfl, rfl, rfl, by decide, rfl, rfl, rfl, by decide⟩
 
 /-- **Concurrent drops.** Two or three iterators dropped on different threads, in every interleaving of their steps (clear the
     own flag; one atomic decrement of the live counter; free iff the decrement saw 1): the buffer is freed at most once,
